@@ -1,6 +1,7 @@
 CONSTANTS
   Kernel = "rect"
   Classes <- RectClasses
+  SumInSpec = TRUE
   Export = TRUE
 INIT Init
 NEXT Next
